@@ -273,7 +273,7 @@ type c02Reuse struct {
 	Clients [][]c02ReuseOp `json:"clients"`
 }
 
-var c02LocalKinds = []string{"options", "system_local", "system_peers", "system_bad_column", "system_json", "system_func", "use", "use_missing", "prepare_system", "register"}
+var c02LocalKinds = []string{"options", "system_local", "system_peers", "system_bad_column", "system_json", "system_func", "use", "use_missing", "prepare_system", "prepare_system_bad_column", "prepare_system_json", "prepare_system_func", "prepare_use", "register"}
 
 func c02ReuseCheck(c c02Reuse) *evid.Fail {
 	e, err := startEnv(envOpts{Hosts: c.Hosts, NumConns: c.Conns, Keyspaces: []string{"ks1"}})
